@@ -59,6 +59,12 @@ def argv_of(row):
     return out
 
 
+# blocks whose specification has an empty stack bound (bs = 0) after simplification: run under every option row
+BS0 = ["DUP1 AND", "PUSH 0 ADD", "PUSH 1 MUL", "PUSH 0 MLOAD PUSH 0 MSTORE", "PUSH 1 SWAP1 DIV",
+       # several zero pushes: PUSH0 against DUP under the size criterion (every row, so every -size row prices them)
+       "PUSH 0 PUSH 0 PUSH 0", "PUSH 0 PUSH 0 PUSH 1", "PUSH 2 PUSH 0 PUSH 0"]
+
+
 def small_blocks(tier, seed):
     arith = [gen.frag(x, "*") for x in ["ADD", "SUB", "MUL", "PUSH 1", "PUSH 0", "PUSH 2", "DUP1", "DUP2", "SWAP1", "SWAP2", "POP", "ISZERO",
                                         "AND", "LT", "PUSH 1 ADD", "CALLER", "NOT", "ADDMOD", "MULMOD", "SWAP2 ADDMOD", "PUSH 7 SWAP2",
@@ -84,6 +90,7 @@ def collect(tier, maxb0=None, maxmodels=None):
     jobs = []
     for i, row in enumerate(rows):
         bl = blocks if (tier != "quick" and i == 0) else corpus.sample(blocks, 45 if tier == "quick" else 150, seed + i)
+        bl = bl + [t for t in BS0 if t not in bl]
         jobs.append((argv_of(row), [{"cmd": "sfs_smt", "text": t, "maxb0": maxb0, "max": maxmodels, "budget": 12 if tier == "quick" else 40}
                                     for t in bl]))
     results = pool.run_matrix(jobs, timeout=120 if tier == "quick" else 400)
